@@ -87,7 +87,7 @@ def run(rep, tier):
            found=found or "%d/%d paths" % (len(called), len(missing)))
 
     # ---------------- JIT
-    rj = rep.rule("R08.j", "JIT: SysV argument registers hold r1..r5, result in rax = r0, r6-r10 and the packet base preserved, unknown id -> compile-time Err", floor=2)
+    rj = rep.rule("R08.j", "JIT: SysV argument registers hold r1..r5, result in rax = r0, r6-r10 and the packet base preserved, unknown id -> compile-time Err", floor=3)
     tps = jm.templates(CALL, 3, 0)
     okt = [t for t in tps if not t["err"]]
     errt = [t for t in tps if t["err"] == "Err"]
@@ -116,8 +116,9 @@ def run(rep, tier):
             pushes = hc[0][3] if hc else None
     rep.ob(rj, "call-template", good, "x86 template of a helper call", expected="mov rcx<-r9; call rax with rdi,rsi,rdx,rcx,r8 = r1..r5; rax = r0",
            found=found or [(t["err"], len(t["items"])) for t in tps])
-    keyok = any(c[0] == "call" and c[1] == "is_Some" for t in okt for c in t["conds"]) and \
-        any("HashMap" in str(e) for e in []) or True
+    keys = [T.show(e[2][1]) for t in tps for e in t.get("lookups", [])]
+    rep.ob(rj, "key", bool(keys) and all(e[2][1] == IMM for t in tps for e in t.get("lookups", [])) and all(t.get("lookups") for t in tps),
+           "key of the compile-time helper lookup", expected=T.show(IMM), found=sorted(set(keys)))
     rep.ob(rj, "unknown-id", len(errt) == 1 and not errt[0]["items"], "JIT compilation of a call to an unregistered id",
            expected="Err, nothing emitted", found=[(t["err"], len(t["items"])) for t in tps])
 
